@@ -409,6 +409,234 @@ def features_of(atoms, label_differs):
     return sorted(f)
 
 
+# ---------------------------------------------------------------- written PQR files of the twin inputs
+# The statement is about the RESULT of a run: the PQR file main_driver writes.  The streams above compare the
+# readers and the biomolecule, and the end-to-end sample runs with one fixed output layout (--whitespace
+# --keep-chain) on structures without hetero groups.  This stream quantifies over the output-affecting options
+# (column layout, chain column, water removal) on twins that always contain waters and often a hetero group.
+
+WF_FLAGS = ("--whitespace", "--keep-chain", "--drop-water")
+WATER_NAMES = ("HOH", "WAT")
+PQR_FIELDS = ["record", "serial", "name", "res_name", "chain_id", "res_seq", "ins_code", "x", "y", "z", "charge", "radius"]
+_het_groups = None
+
+
+def het_groups():
+    """hetero groups (not water) of the offline structures, as lists of atom dicts"""
+    global _het_groups
+    if _het_groups is None:
+        _het_groups = []
+        for name in sorted(c07.pool()):
+            for res in c07.pool()[name][1]:
+                if res[0].startswith("HETATM") and res[0][17:20].strip() not in WATER_NAMES and len(res[0][17:20].strip()) == 3:
+                    at = [parse_pool_line(l) for l in res if l[16] in " A"]
+                    if at and len(at) <= 60:
+                        _het_groups.append(at)
+    return _het_groups
+
+
+def gen_hetero_structure(rng: random.Random):
+    """a gen_structure() twin that is guaranteed to contain crystallographic waters (own residue numbers) and,
+    half of the time, a hetero group of the offline structures; every model gets the same additions"""
+    for _ in range(50):
+        atoms, label_differs, feats = gen_structure(rng)
+        if any(not a["het"] for a in atoms):
+            break
+    feats = set(feats)
+    chain = next(a["chain"] for a in atoms if not a["het"]) if any(not a["het"] for a in atoms) else atoms[0]["chain"]
+    used = {a["resseq"] for a in atoms}
+    free = [n for n in range(1, 9000) if n not in used and n - 1 not in used and n + 1 not in used]
+    base = rng.choice(free[: max(1, len(free) - 10)])
+    nums = [n for n in free if n >= base][:8]
+    ref = next((a for a in atoms if not a["het"]), atoms[0])
+    rx, ry, rz = float(ref["xs"]) if len(ref["xs"]) < 8 else 0.0, float(ref["ys"]), float(ref["zs"])
+    extra = []
+    if rng.random() < 0.5 and het_groups():
+        kind = rng.choice(sorted({g[0]["resn"] for g in het_groups()}))
+        g = rng.choice([g for g in het_groups() if g[0]["resn"] == kind])
+        cx, cy, cz = float(g[0]["xs"]), float(g[0]["ys"]), float(g[0]["zs"])
+        for a in g:
+            # moved next to the window (15 A away), shape kept
+            extra.append({**a, "chain": chain, "resseq": nums[0], "xs": f"{float(a['xs']) - cx + rx + 15:.3f}", "ys": f"{float(a['ys']) - cy + ry:.3f}", "zs": f"{float(a['zs']) - cz + rz:.3f}"})
+        feats.add("hetero-group:" + g[0]["resn"])
+    nw = rng.randint(1, 3)
+    for k in range(nw):
+        extra.append({"het": True, "name": "O", "resn": "HOH", "chain": chain, "resseq": nums[1 + k], "xs": f"{rx + rng.uniform(-12, 12):.3f}", "ys": f"{ry + rng.uniform(6, 12) * rng.choice([-1, 1]):.3f}", "zs": f"{rz + rng.uniform(-12, 12):.3f}", "occ": "1.00", "b": "30.00", "element": "O", "alt": "", "ins": "", "charge": "", "model": 1})
+    feats.add("water")
+    models = []
+    for a in atoms:
+        if a["model"] not in models:
+            models.append(a["model"])
+    first = atoms[0]["serial"]
+    out = []
+    for m in models:
+        serial = first
+        for a in [x for x in atoms if x["model"] == m] + [{**e, "model": m} for e in extra]:
+            out.append({**a, "serial": serial})
+            serial += 1
+    if label_differs is False and rng.random() < 0.25:
+        label_differs = True
+        feats.add("label!=auth chain")
+    return out, label_differs, feats
+
+
+def unspace(line: str) -> str:
+    """inverse of the --whitespace layout (one blank inserted after columns 6, 16, 38 and 46 of the record)"""
+    return line[0:6] + line[7:17] + line[18:40] + line[41:49] + line[50:]
+
+
+def pqr_fields(line: str, whitespace: bool):
+    """the fields of one written ATOM/HETATM record, by the fixed columns of the PQR layout"""
+    l = (unspace(line) if whitespace else line).rstrip("\r\n")
+    return (l[0:6].strip(), l[6:11].strip(), l[12:16].strip(), l[16:21].strip(), l[21:22].strip(), l[22:26].strip(), l[26:27].strip(), l[30:38].strip(), l[38:46].strip(), l[46:54].strip(), l[54:62].strip(), l[62:69].strip())
+
+
+def written_pqr(text: str, suffix: str, opts):
+    """the file main_driver writes for one encoding: (status, [fields of the atom records], [record names of the other lines])"""
+    from pdb2pqr.main import build_main_parser, main_driver
+
+    quiet()
+    d = tempfile.mkdtemp(prefix="c10w_")
+    inp, out = os.path.join(d, "in" + suffix), os.path.join(d, "out.pqr")
+    with open(inp, "w") as f:
+        f.write(text)
+    try:
+        args = build_main_parser().parse_args([*opts, "--log-level=CRITICAL", inp, out])
+        try:
+            main_driver(args)
+        except Exception as e:  # noqa: BLE001
+            return type(e).__name__, None, None
+        if not os.path.exists(out):
+            return "no-output-file", None, None
+        recs, other = [], []
+        with open(out) as f:
+            for l in f:
+                if l.startswith(("ATOM", "HETATM")):
+                    recs.append(pqr_fields(l, "--whitespace" in opts))
+                else:
+                    other.append(l[:6].strip())
+        return "ok", recs, other
+    finally:
+        for fn in os.listdir(d):
+            os.unlink(os.path.join(d, fn))
+        os.rmdir(d)
+
+
+def requested_waters(atoms):
+    """the water oxygens the request contains (first model, first conformer, residue key not shared with anything else):
+    [(res_seq, ins_code, x, y, z)] with the coordinates as a PQR record prints them"""
+    m0 = atoms[0]["model"]
+    first = [a for a in atoms if a["model"] == m0]
+    out = []
+    for a in first:
+        if a["resn"] in WATER_NAMES and a["name"] == "O" and a["alt"] in ("", "A"):
+            key = (a["chain"], a["resseq"], a["ins"])
+            if all(b["resn"] in WATER_NAMES for b in first if (b["chain"], b["resseq"], b["ins"]) == key) and sum(1 for b in first if (b["chain"], b["resseq"], b["ins"]) == key and b["name"] == "O") == 1:
+                out.append((str(a["resseq"]), a["ins"], f"{float(a['xs']):8.3f}".strip(), f"{float(a['ys']):8.3f}".strip(), f"{float(a['zs']):8.3f}".strip()))
+    return out
+
+
+def compare_written(atoms, label_differs, opts):
+    """the property on the written files: (None | (kind, message), status pair)"""
+    sp, rp, _op = written_pqr(write_pdb(atoms), ".pdb", opts)
+    sc, rc, _oc = written_pqr(write_cif(atoms, label_differs), ".cif", opts)
+    st = f"{sp}/{sc}"
+    if sp != "ok":
+        return None, st  # the PDB encoding itself is not processed: not a C10 matter
+    if sc != "ok":
+        return ("crash", f"main_driver {' '.join(opts)} fails on the mmCIF encoding ({sc}) and succeeds on the PDB encoding"), st
+    # the request's own waters: present in both files unless --drop-water, absent from both with it
+    for enc, recs in (("PDB", rp), ("mmCIF", rc)):
+        wat = [r for r in recs if r[3] in WATER_NAMES]
+        if "--drop-water" in opts:
+            if wat:
+                return ("water-kept", f"{' '.join(opts)}: the PQR written for the {enc} encoding still has {len(wat)} water records"), st
+        else:
+            have = {(r[5], r[6], r[7], r[8], r[9]) for r in wat if r[2] == "O"}
+            miss = [w for w in requested_waters(atoms) if w not in have]
+            if miss:
+                return ("water-lost", f"{' '.join(opts)}: the PQR written for the {enc} encoding lacks {len(miss)} of the {len(requested_waters(atoms))} waters of the input (e.g. residue {miss[0][0]}{miss[0][1]} at {miss[0][2:]}); {len(recs)} atom records written"), st
+    if len(rp) != len(rc):
+        nh = (sum(1 for r in rp if r[0] == "HETATM"), sum(1 for r in rc if r[0] == "HETATM"))
+        return ("count", f"{' '.join(opts)}: {len(rc)} atom records in the PQR written from mmCIF ({nh[1]} HETATM), {len(rp)} in the one written from PDB ({nh[0]} HETATM)"), st
+    for a, b in zip(rp, rc):
+        for i, f in enumerate(PQR_FIELDS):
+            if a[i] != b[i]:
+                return ("pqr-" + f, f"{' '.join(opts)}: written record {a[1]} ({a[2]} {a[3]} {a[5]}): {f} is {b[i]!r} from mmCIF, {a[i]!r} from PDB"), st
+    return None, st
+
+
+def minimise_written(atoms, label_differs, opts, kind, budget=10):
+    """drop whole residues / models while the same kind of difference remains (each trial is two runs: small budget)"""
+    def fails(at, ld):
+        pr, _ = compare_written(at, ld, opts)
+        return pr is not None and pr[0] == kind
+
+    cur, n = list(atoms), 0
+    m0 = cur[0]["model"]
+    if any(a["model"] != m0 for a in cur):
+        t = [a for a in cur if a["model"] == m0]
+        n += 1
+        if fails(t, label_differs):
+            cur = t
+    if label_differs:
+        n += 1
+        if fails(cur, False):
+            label_differs = False
+    keys = []
+    for a in cur:
+        k = (a["chain"], a["resseq"], a["ins"])
+        if k not in keys:
+            keys.append(k)
+    for k in reversed(keys):
+        if n >= budget:
+            break
+        t = [a for a in cur if (a["chain"], a["resseq"], a["ins"]) != k]
+        if not t:
+            continue
+        n += 1
+        if fails(t, label_differs):
+            cur = t
+    return cur, label_differs
+
+
+def written_stream(ctx: Ctx):
+    n = ctx.scale(24, 400)
+    rng = random.Random(f"C10:written:{ctx.seed}")
+    ctx.extra["rule"] = ctx.extra.get("rule", "") + (
+        "; written-file stream: such windows with 1-3 added waters and (half of them) a hetero group of the offline structures, both encodings through main_driver "
+        "with every combination of --whitespace / --keep-chain / --drop-water and a random force field, the atom records of the two written PQR files compared field by field "
+        "and against the waters the input contains"
+    )
+    seen = set()
+    for ci in range(n):
+        atoms, label_differs, feats = gen_hetero_structure(rng)
+        ctx.evaluations += 1
+        # every combination of the three output-affecting flags comes round every 8 cases
+        flags = [f for k, f in enumerate(WF_FLAGS) if (ci >> k) & 1]
+        ff = rng.choice(["AMBER", "PARSE", "CHARMM", "SWANSON", "TYL06", "PEOEPB"])
+        opts = [f"--ff={ff}", *flags]
+        if rng.random() < 0.3:
+            opts.append(rng.choice(["--nodebump", "--noopt"]))
+        ctx.distinct.add(("written", tuple(flags), tuple(sorted(f.split(":")[0] for f in feats))))
+        ctx.count("written-file options", " ".join(flags) or "(default layout)")
+        for f in feats:
+            if f.startswith("hetero-group") or f == "water":
+                ctx.count("written-file features", f)
+        pr, st = compare_written(atoms, label_differs, opts)
+        ctx.count("written-file runs (pdb/cif)", st)
+        ctx.count("written-file oracle", "holds" if pr is None else pr[0])
+        if ci < 1:
+            ctx.sample({"stream": "written-file", "options": opts, "features": sorted(feats), "pdb_tail": write_pdb(atoms)[-400:], "property": "holds" if pr is None else pr[0]})
+        if pr is None or pr[0] in seen:
+            continue
+        seen.add(pr[0])
+        small, ld = minimise_written(atoms, label_differs, opts, pr[0])
+        mpr = compare_written(small, ld, opts)[0] or pr
+        sig = {"field": "written-file:" + mpr[0], "features": ",".join(features_of(small, ld)), "layout": "whitespace" if "--whitespace" in opts else "columns"}
+        ctx.violate(sig, mpr[1], {"kind": "written-file", "atoms": small, "label_differs": ld, "opts": opts})
+
+
 def run(ctx: Ctx):
     rng = ctx.rng
     n = ctx.scale(120, 3000)
@@ -485,10 +713,17 @@ def run(ctx: Ctx):
                     a, b = ([x[1:4] + x[5:] for x in lp], [x[1:4] + x[5:] for x in lc]) if label_differs else (lp, lc)
                     if a != b:
                         ctx.violate({"field": "end-to-end", "features": ",".join(features_of(atoms, label_differs))}, "PQR atom lines differ between the PDB and the mmCIF encoding", {"atoms": atoms, "label_differs": label_differs, "ff": ff})
+    written_stream(ctx)
 
 
 def replay(ctx: Ctx, data: dict) -> bool:
     rp = data.get("replay", data)
+    if rp.get("kind") == "written-file":
+        pr, st = compare_written(rp["atoms"], rp["label_differs"], rp["opts"])
+        print(write_pdb(rp["atoms"]))
+        print("options:", " ".join(rp["opts"]), " runs (pdb/cif):", st)
+        print("property:", pr or "holds")
+        return pr is not None
     pr = compare(rp["atoms"], rp["label_differs"])
     print(write_pdb(rp["atoms"]))
     print("property:", pr or "holds")
